@@ -358,16 +358,11 @@ def encode_key(
         bytes encoded string
     """
     if value is None:
-        return struct.pack("I", len(key)) + key.encode()
+        return _encode_string(key)
 
     if value_type == "str" and isinstance(value, str):
-        return (
-            struct.pack("I", len(key))
-            + key.encode()
-            + struct.pack("I", len(value))
-            + value.encode()
-        )
-    return struct.pack("I", len(key)) + key.encode() + struct.pack(value_type, value)
+        return _encode_string(key) + _encode_string(value)
+    return _encode_string(key) + struct.pack(value_type, value)
 
 
 def parse_radec(src_raj: float, src_dej: float) -> SkyCoord:
@@ -411,3 +406,23 @@ def _read_string(fp: BinaryIO) -> str:
     """
     strlen = struct.unpack("I", fp.read(struct.calcsize("I")))[0]
     return fp.read(strlen).decode()
+
+
+def _encode_string(string: str) -> bytes:
+    """Encode a string in sigproc format.
+
+    The length prefix counts the encoded bytes (as ``_read_string`` expects),
+    not the characters of the string.
+
+    Parameters
+    ----------
+    string : str
+        string to encode
+
+    Returns
+    -------
+    bytes
+        length of the encoded string followed by the encoded string
+    """
+    encoded = string.encode()
+    return struct.pack("I", len(encoded)) + encoded
